@@ -47,6 +47,7 @@ type c09fix struct {
 	thrShares        []crypto.Signature
 	msg              []byte
 	vec, share, answ []byte // well-formed DKG messages (n=4, t=2, dealer 1, to 0)
+	shares           map[int][]byte // dealer 1's share for every destination
 }
 
 var c09Fixture = sync.OnceValue(func() *c09fix {
@@ -69,6 +70,7 @@ var c09Fixture = sync.OnceValue(func() *c09fix {
 	_ = d.Start(bytes.Repeat([]byte{5}, 32))
 	f.vec = rp.bcast[0]
 	f.share = rp.priv[0]
+	f.shares = rp.priv
 	f.answ = append([]byte{3, 0}, f.share[1:]...)
 	return f
 })
@@ -649,7 +651,7 @@ func c09DKG(r *rand.Rand, i int, fx *c09fix) c09cmd {
 	// a random history on one instance
 	n, t := 4, 2
 	dealer := 1
-	me := r.IntN(2) // 0 = participant, 1 = the dealer
+	me := r.IntN(4) // 1 = the dealer, others participants
 	seedLen := r.IntN(41)
 	if r.IntN(3) != 0 {
 		seedLen = 32
@@ -672,10 +674,22 @@ func c09DKG(r *rand.Rand, i int, fx *c09fix) c09cmd {
 			s.payload = fx.vec
 		case 1:
 			s.payload = fx.share
+			if sh, ok := fx.shares[me]; ok {
+				s.payload = sh
+			}
 		case 2:
-			s.payload = fx.answ
+			// a well-formed answer of the dealer for some complainer j; make the dealer its origin
+			// most of the time and let j's complaint follow or precede it
+			j := []int{0, 2, 3}[r.IntN(3)]
+			s.payload = append([]byte{3, byte(j)}, fx.shares[j][1:]...)
+			if r.IntN(4) != 0 {
+				s.idx = dealer
+			}
 		case 3:
 			s.payload = []byte{2, byte(r.IntN(6))}
+			if r.IntN(2) == 0 {
+				s.payload = []byte{2, byte(dealer)}
+			}
 		case 4:
 			s.payload = mon.RandBytes(r, r.IntN(201))
 			if len(s.payload) > 0 {
